@@ -167,6 +167,9 @@ let dispatch cmd a =
   | "sf_cmpcol" -> (* mask op c : fast-path comparison for each byte 0..255, as 0/1 bytes *)
     let m = zi 0 and op = zi 1 and c = zi 2 in
     tok_of_bytes (List.init 256 (fun b -> if sf_cmp_fast m (z_of_int b) op c then z_of_int 1 else Z0))
+  | "stats_of" -> (* fmt psize assoc(scales/offsets) xrecs *)
+    let st = stats_of ap (zi 0) (assoc_of_tok a.(2)) (recs_of_tok (int_of_string a.(1)) a.(3)) in
+    String.concat " " [string_of_z st.s_count; tok_of_zlist st.s_max; tok_of_zlist st.s_min; tok_of_zlist st.s_ret]
   | _ -> "unknown-command " ^ cmd
 
 let () =
